@@ -161,7 +161,7 @@ def classify(diags, c):
     BIN = ("application/octet-stream", "image/", "audio/", "video/", "application/pdf")
     has_bin_body = any("requestBody" in op and any(ct.startswith(BIN) for ct in op["requestBody"].get("content", {})) for op in ops)
     opt_raw_body = any("requestBody" in op and not op["requestBody"].get("required", False)
-                       and any(not (ct.endswith("json") or ct.endswith("x-www-form-urlencoded") or ct.startswith("multipart")) for ct in op["requestBody"].get("content", {}))
+                       and any(not (ct.endswith("json") or ct.startswith("multipart")) for ct in op["requestBody"].get("content", {}))
                        for op in ops)
     keys = set()
     for d_ in diags:
@@ -172,9 +172,43 @@ def classify(diags, c):
             keys.add("server-binary-body-type-mismatch")
         elif c["mode"] == "server-mod" and opt_raw_body and code == "E0277" and "Handler<" in msg:
             keys.add("server-optional-raw-body-extractor")
+        elif code in ("E0391", "E0308") and ("cycle detected when expanding type alias" in msg or (code == "E0308" and any("cycle detected when expanding type alias" in x["message"] for x in diags))) and has_recursive_alias(c["spec"]):
+            keys.add("recursive-alias-schema")
         else:
             return None
     return keys
+
+
+def has_recursive_alias(spec):
+    """a component that is an array / map (no properties) and reaches itself through items / additionalProperties only"""
+    comps = spec.get("components", {}).get("schemas", {})
+
+    def alias_refs(s, out):
+        if not isinstance(s, dict) or s.get("properties"):
+            return
+        if "$ref" in s:
+            out.add(s["$ref"].split("/")[-1])
+            return
+        for k in ("items", "additionalProperties"):
+            if isinstance(s.get(k), dict):
+                alias_refs(s[k], out)
+    g = {}
+    for k, v in comps.items():
+        out = set()
+        if isinstance(v, dict) and "$ref" not in v and not v.get("properties") and (v.get("type") == "array" or isinstance(v.get("additionalProperties"), dict)):
+            alias_refs({kk: v[kk] for kk in ("items", "additionalProperties") if kk in v}, out)
+            g[k] = out
+    for k in g:
+        seen, todo = set(), list(g[k])
+        while todo:
+            u = todo.pop()
+            if u == k:
+                return True
+            if u in seen or u not in g:
+                continue
+            seen.add(u)
+            todo.extend(g[u])
+    return False
 
 
 def feature_matrix_spec():
